@@ -71,11 +71,17 @@ class SubCheck:
 
 
 def load_known():
-    path = os.path.join(VERIF_DIR, "known_findings.json")
-    if not os.path.exists(path):
-        return []
-    with open(path) as f:
-        return json.load(f)["findings"]
+    """known_findings.json plus per-property files known_findings/Cxx.json (same schema)"""
+    out = []
+    paths = [os.path.join(VERIF_DIR, "known_findings.json")]
+    d = os.path.join(VERIF_DIR, "known_findings")
+    if os.path.isdir(d):
+        paths += [os.path.join(d, fn) for fn in sorted(os.listdir(d)) if fn.endswith(".json")]
+    for path in paths:
+        if os.path.exists(path):
+            with open(path) as f:
+                out.extend(json.load(f)["findings"])
+    return out
 
 
 _KNOWN_CACHE = {}
